@@ -1,4 +1,5 @@
 import B6.Model.Proto.EachItem
+import B6.Lemmas.ProtoMeasure
 /-! Invariants of the repaired `EachItem` protocol model (helper lemmas for `Props/C28.lean`). -/
 namespace B6.Model.Proto.EachItem
 open B6.Model.Proto
@@ -120,5 +121,60 @@ theorem inv_step {c : Cfg} {s s' : St} (I : Inv c s) (h : s' ∈ step c s) : Inv
 
 theorem inv_reachable {c : Cfg} {s : St} (h : Reachable (step c) (init c) s) : Inv c s :=
   Reachable.invariant (Inv c) (inv_init c) (fun _ _ I hm => inv_step I hm) s h
+
+/-! ### a measure that every step decreases -/
+
+def wweight (c : Cfg) : W → Nat
+  | .idle => 1
+  | .busy k j => (c.size k - j) + 2
+  | .failing => 1
+  | .exited => 0
+
+/-- `size k + 2` per bucket not yet handed out, the callbacks left (+2) per busy worker, 1 per worker that has not
+left, 1 each for the feeder's `break feed`, `close` and `return` -/
+def measure (c : Cfg) (s : St) : Nat :=
+  pending (fun k => c.size k + 2) c.n s.next + (s.ws.map (wweight c)).sum
+    + flag s.stopped + flag s.closed + flag s.ret.isSome
+
+theorem measure_step {c : Cfg} {s s' : St} (h : s' ∈ step c s) : measure c s' < measure c s := by
+  obtain ⟨hr, h⟩ := mem_step.mp h
+  rcases h with ⟨i, hl, hw, rfl⟩ | ⟨hl, ht, rfl⟩ | ⟨hc, hl, rfl⟩ | ⟨hc, ha, rfl⟩ | ⟨i, w, hw, h⟩
+  · -- hand
+    have hp := pending_succ (fun k => c.size k + 2) hl.2.2
+    have hs := sum_map_set' (wweight c) s.ws i W.idle (if c.size s.next = 0 then W.idle else W.busy s.next 0) hw
+    simp only [measure, hand]
+    by_cases hz : c.size s.next = 0
+    · simp only [hz, ↓reduceIte, wweight] at hs ⊢; omega
+    · simp only [hz, ↓reduceIte, wweight] at hs ⊢; omega
+  · simp only [measure, hl.2.1, flag]; simp
+  · simp only [measure, hc, flag]; simp
+  · simp only [measure, hr, flag]; simp
+  · have key : ∀ x : W, wweight c x < wweight c w →
+        (((s.ws.set i x).map (wweight c)).sum < (s.ws.map (wweight c)).sum) := by
+      intro x hx
+      have := sum_map_set' (wweight c) s.ws i w x hw
+      omega
+    cases w with
+    | idle =>
+      simp only [workerStep, mem_guard] at h; obtain ⟨_, rfl⟩ := h
+      have := key W.exited (by simp [wweight])
+      simp only [measure]; omega
+    | busy k j =>
+      simp only [workerStep] at h
+      split at h
+      · simp only [List.mem_singleton] at h; subst h
+        have := key W.failing (by simp [wweight])
+        simp only [measure]; omega
+      · split at h <;> (simp only [List.mem_singleton] at h; subst h)
+        · next hj =>
+          have := key (W.busy k (j + 1)) (by simp only [wweight]; omega)
+          simp only [measure]; omega
+        · have := key W.idle (by simp [wweight])
+          simp only [measure]; omega
+    | failing =>
+      simp only [workerStep, List.mem_singleton] at h; subst h
+      have := key W.exited (by simp [wweight])
+      simp only [measure]; omega
+    | exited => simp [workerStep] at h
 
 end B6.Model.Proto.EachItem
